@@ -489,7 +489,7 @@ CHECKS["C18"] = {
               "(accept/consume/serve/receiver/dispatch/listener hand-off) is left after the release bound, and every connection a listener had accepted is closed on the server side. "
               "Plus, over the library's own loopback listeners (TCP, TCP with a TLS configuration, WebSocket; ConnBuffer 0-32, Backlog 0-8) in real time: 1-24 raw peers, speaking or silent, connect at drawn "
               "microsecond offsets (half of the cases as a burst right before the closing) while the Server is closed: every peer that got connected is served (receives bytes) or sees its connection end "
-              "within 8 s (one I/O poll for a silent peer in mid-handshake), ListenAndServe returns ErrServerClosed and no serving goroutine stays. "
+              "(expected within one I/O poll, 5 s, for a silent peer in mid-handshake; a peer that has seen nothing after 8 s looks again for 12 s before its connection counts as left behind - what ends only then is classified, not judged), ListenAndServe returns ErrServerClosed and no serving goroutine stays. "
               "A quarter of these cases serve the same Server value two or three times, half of those starting the next serve call right after Close returned, before the previous call came back (Close must not answer \"not listening\" then). "
               "The TCP and WebSocket listeners alone are also started and closed thousands of times in a row: nothing panics. "
               "WebSocket peers that have not got as far as an upgrade when the Server is closed - connected and silent, in the middle of their upgrade request, or refused and kept alive by the listener's HTTP server - see their connection end as well."),
